@@ -85,6 +85,8 @@ def run_case(case):
                 raise AssertionError(k)
 
         # (sockbuf: only so many bytes of a write leave at once - a big reply sits in the transport's queue for a while)
+        if case.get('nolimit'):
+            S.cost_hard_limit = 0           # a session that is never refused service (what connect_rs() sessions are): the cost is still kept
         proto, ft, s = sessions.attach(S, kind='server', sockbuf=case.get('sockbuf'))
 
         async def main():
@@ -188,6 +190,9 @@ class C03(Prop):
                 {'reqs': [{'kind': 'ret', 'value': 1, 'delay': 0.1, 'notification': False},
                           {'kind': 'discval', 'value': 'x' * 200000, 'delay': 0.5, 'notification': False, 'in_batch': False}],
                  'sockbuf': 65536},
+                {'nolimit': True, 'reqs': [{'kind': 'rpc', 'code': 5, 'msg': 'no', 'cost': 25.0, 'delay': 0.1, 'notification': False},
+                                           {'kind': 'other', 'which': 0, 'delay': 0.2, 'notification': False},
+                                           {'kind': 'proto', 'code': -5, 'msg': 'p', 'delay': 0.3, 'notification': False}]},
                 {'reqs': [{'kind': 'overrun', 'inner': 3, 'delay': 0.1, 'notification': False},
                           {'kind': 'ret', 'value': jv.to_plain(1), 'delay': 0.3, 'notification': False}]},
                 {'reqs': [{'kind': 'overrun', 'inner': 4, 'delay': 0.1, 'notification': False},
@@ -235,6 +240,8 @@ class C03(Prop):
             case = {'reqs': reqs}
             if any(isinstance(x.get('value'), str) and len(x['value']) > 100000 for x in reqs):
                 case['sockbuf'] = 65536
+            if not any(x['kind'] == 'refused' for x in reqs) and rng.random() < 0.25:
+                case['nolimit'] = True
             yield case
 
     def run_impl(self, case):
